@@ -149,9 +149,43 @@ func buildOverlay(spec *Spec, specDir string) (map[string][]byte, error) {
 	return ov, nil
 }
 
+type hrun struct {
+	spec HarnessSpec
+	res  *HarnessResult
+	ok   bool
+	why  string
+	pkg  string
+}
+
+type runCtx struct {
+	tier        string
+	only        string
+	workers     int
+	noReplay    bool
+	verbose     bool
+	runs        []*hrun
+	exit        int
+	nViol       int
+	replayFiles []string
+	nativeRuns  int
+	knownLines  []string
+	assumes     []string
+	outside     []string
+	loadS       float64
+	timeoutMs   int
+	solver      string
+	property    string
+}
+
+type multiFlag []string
+
+func (m *multiFlag) String() string     { return strings.Join(*m, ",") }
+func (m *multiFlag) Set(v string) error { *m = append(*m, v); return nil }
+
 func cmdRun(args []string) int {
 	fs := flag.NewFlagSet("run", flag.ExitOnError)
-	specPath := fs.String("spec", "", "spec.json")
+	var specPaths multiFlag
+	fs.Var(&specPaths, "spec", "spec.json (repeatable)")
 	tier := fs.String("tier", "quick", "quick|thorough")
 	only := fs.String("only", "", "run only harnesses whose name contains this")
 	workers := fs.Int("workers", 0, "worker count (default: NumCPU)")
@@ -170,7 +204,39 @@ func cmdRun(args []string) int {
 		*workers = runtime.NumCPU()
 	}
 	t0 := time.Now()
-	sb, err := os.ReadFile(*specPath)
+	rc := &runCtx{tier: *tier, only: *only, workers: *workers, noReplay: *noReplay, verbose: *verbose}
+	for _, sp := range specPaths {
+		if code := rc.runSpec(sp, *evPath); code == 2 && rc.exit == 0 {
+			rc.exit = 2
+		}
+	}
+	if rc.property == "" {
+		fmt.Fprintln(os.Stderr, "no spec")
+		return 2
+	}
+	if *evPath == "" {
+		*evPath = filepath.Join(verifDir, "evidence", rc.property+".json")
+	}
+	rc.writeEvidence(*evPath, seed, t0)
+	return rc.exit
+}
+
+func (rc *runCtx) fail(hr *hrun, code int, why string) {
+	if hr != nil {
+		hr.ok = false
+		hr.why = why
+		fmt.Printf("CHECK-PROBLEM property=%s harness=%s: %s\n", rc.property, hr.spec.Func, why)
+	} else {
+		fmt.Printf("CHECK-PROBLEM property=%s: %s\n", rc.property, why)
+	}
+	if rc.exit != 1 {
+		rc.exit = code
+	}
+}
+
+func (rc *runCtx) runSpec(specPath string, evPath string) int {
+	t0 := time.Now()
+	sb, err := os.ReadFile(specPath)
 	if err != nil {
 		fmt.Fprintln(os.Stderr, err)
 		return 2
@@ -180,11 +246,29 @@ func cmdRun(args []string) int {
 		fmt.Fprintln(os.Stderr, "spec:", err)
 		return 2
 	}
-	specDir, _ := filepath.Abs(filepath.Dir(*specPath))
-	if *evPath == "" {
-		*evPath = filepath.Join(verifDir, "evidence", spec.Property+".json")
+	if rc.property == "" {
+		rc.property = spec.Property
+		if evPath == "" {
+			os.Remove(filepath.Join(verifDir, "evidence", spec.Property+".json"))
+		}
 	}
-	os.Remove(*evPath)
+	rc.assumes = appendUniq(rc.assumes, spec.Assumes...)
+	rc.outside = appendUniq(rc.outside, spec.Outside...)
+	specDir, _ := filepath.Abs(filepath.Dir(specPath))
+	// anything to run in this tier?
+	any := false
+	for _, hs := range spec.Harnesses {
+		if rc.only != "" && !strings.Contains(hs.Func, rc.only) {
+			continue
+		}
+		if len(hs.Tiers) > 0 && !contains(hs.Tiers, rc.tier) {
+			continue
+		}
+		any = true
+	}
+	if !any {
+		return 0
+	}
 	overlay, err := buildOverlay(&spec, specDir)
 	if err != nil {
 		fmt.Fprintln(os.Stderr, err)
@@ -194,14 +278,17 @@ func cmdRun(args []string) int {
 	eng, err := Load(repoDir, overlay, patterns)
 	if err != nil {
 		fmt.Fprintln(os.Stderr, "load:", err)
+		rc.fail(nil, 2, "load failed for "+spec.Package+": "+err.Error())
 		return 2
 	}
 	if spec.TimeoutMs > 0 {
 		eng.queryTimeoutMs = spec.TimeoutMs
-	} else if *tier == "thorough" {
+	} else if rc.tier == "thorough" {
 		eng.queryTimeoutMs = 120000
 	}
-	loadT := time.Since(t0)
+	rc.timeoutMs = eng.queryTimeoutMs
+	rc.solver = eng.solverKind
+	rc.loadS += time.Since(t0).Seconds()
 	eng.InitShared()
 	idx := eng.funcIndex()
 	for callee, repl := range spec.Overrides {
@@ -211,56 +298,37 @@ func cmdRun(args []string) int {
 			rf = idx[spec.Package+"."+repl]
 		}
 		if cf == nil || rf == nil {
-			fmt.Fprintf(os.Stderr, "override %s -> %s: function not found (callee %v, replacement %v)\n", callee, repl, cf != nil, rf != nil)
+			rc.fail(nil, 2, fmt.Sprintf("override %s -> %s: function not found (callee %v, replacement %v)", callee, repl, cf != nil, rf != nil))
 			return 2
 		}
 		eng.overrides[cf] = rf
 	}
 	hpkg := eng.prog.ImportedPackage(spec.Package)
 	if hpkg == nil {
-		fmt.Fprintln(os.Stderr, "harness package not found:", spec.Package)
+		rc.fail(nil, 2, "harness package not found: "+spec.Package)
 		return 2
 	}
 	known := loadKnown(filepath.Join(verifDir, "known_findings.txt"))
-
-	type hrun struct {
-		spec HarnessSpec
-		res  *HarnessResult
-		ok   bool
-		why  string
-	}
-	var runs []*hrun
-	exit := 0
-	nViol := 0
-	var replayFiles []string
-	nativeRuns := 0
-	var knownLines []string
 	for _, hs := range spec.Harnesses {
-		if *only != "" && !strings.Contains(hs.Func, *only) {
+		if rc.only != "" && !strings.Contains(hs.Func, rc.only) {
 			continue
 		}
-		if len(hs.Tiers) > 0 && !contains(hs.Tiers, *tier) {
+		if len(hs.Tiers) > 0 && !contains(hs.Tiers, rc.tier) {
 			continue
 		}
 		fn := hpkg.Func(hs.Func)
 		if fn == nil {
-			fmt.Fprintf(os.Stderr, "harness %s not found in %s\n", hs.Func, spec.Package)
-			return 2
+			rc.fail(nil, 2, fmt.Sprintf("harness %s not found in %s", hs.Func, spec.Package))
+			continue
 		}
-		// configure engine for this harness
 		eng.params = map[string]int{}
-		src := hs.Quick
-		if *tier == "thorough" {
-			src = map[string]int{}
-			for k, v := range hs.Quick {
-				src[k] = v
-			}
-			for k, v := range hs.Thorough {
-				src[k] = v
-			}
-		}
-		for k, v := range src {
+		for k, v := range hs.Quick {
 			eng.params[k] = v
+		}
+		if rc.tier == "thorough" {
+			for k, v := range hs.Thorough {
+				eng.params[k] = v
+			}
 		}
 		eng.maxAlloc = pick(hs.MaxAlloc, 64)
 		if v, ok := eng.params["max_alloc"]; ok {
@@ -279,55 +347,46 @@ func cmdRun(args []string) int {
 		if hs.TimeoutSec > 0 {
 			deadline = time.Now().Add(time.Duration(hs.TimeoutSec) * time.Second)
 		}
-		res := eng.RunHarness(fn, *workers, maxPaths, deadline)
-		hr := &hrun{spec: hs, res: res, ok: true}
-		runs = append(runs, hr)
-		if *verbose {
+		res := eng.RunHarness(fn, rc.workers, maxPaths, deadline)
+		hr := &hrun{spec: hs, res: res, ok: true, pkg: spec.Package}
+		rc.runs = append(rc.runs, hr)
+		if rc.verbose {
 			fmt.Fprintf(os.Stderr, "%s: paths=%d ends=%v decisions=%d obligations=%d violations=%d covers=%v events=%v wall=%v solver=%v queries=%d\n",
 				hs.Func, res.Paths, res.PathEnds, res.Decisions, res.Obligations, len(res.Violations), res.Covers, res.Events, res.Wall.Round(time.Millisecond), res.SolverTime.Round(time.Millisecond), res.Queries)
 		}
-		fail := func(code int, why string) {
-			hr.ok = false
-			hr.why = why
-			if exit != 1 {
-				exit = code
-			}
-			fmt.Printf("CHECK-PROBLEM property=%s harness=%s: %s\n", spec.Property, hs.Func, why)
-		}
 		if len(res.EngineErrors) > 0 {
-			fail(2, "engine error: "+firstLine(res.EngineErrors[0]))
-			if *verbose {
+			rc.fail(hr, 2, "engine error: "+firstLine(res.EngineErrors[0]))
+			if rc.verbose {
 				fmt.Fprintln(os.Stderr, res.EngineErrors[0])
 			}
 			continue
 		}
 		if len(res.Unknowns) > 0 {
-			fail(2, "inconclusive solver answer: "+res.Unknowns[0])
+			rc.fail(hr, 2, "inconclusive solver answer: "+res.Unknowns[0])
 		}
 		if len(res.Unwinds) > 0 {
-			fail(2, "unwinding bound hit: "+res.Unwinds[0])
+			rc.fail(hr, 2, "unwinding bound hit: "+res.Unwinds[0])
 		}
 		if res.Truncated {
-			fail(2, "exploration truncated (max paths / deadline)")
+			rc.fail(hr, 2, "exploration truncated (max paths / deadline)")
 		}
 		if res.PathEnds["cut"] > 0 && !hs.AllowCuts {
-			fail(2, fmt.Sprintf("%d paths cut at an allocation bound (not allowed for this harness)", res.PathEnds["cut"]))
+			rc.fail(hr, 2, fmt.Sprintf("%d paths cut at an allocation bound (not allowed for this harness)", res.PathEnds["cut"]))
 		}
 		if hs.Expect == "violation" {
 			if len(res.Violations) == 0 {
-				fail(2, "witness twin did not produce a violation (vacuous harness?)")
+				rc.fail(hr, 2, "witness twin did not produce a violation (vacuous harness?)")
 			}
 			continue
 		}
 		for _, cv := range hs.Covers {
 			if res.Covers[cv] == 0 && len(res.Violations) == 0 {
-				fail(2, "VACUOUS: mandatory cover point not reached: "+cv)
+				rc.fail(hr, 2, "VACUOUS: mandatory cover point not reached: "+cv)
 			}
 		}
 		if res.PathEnds["done"] == 0 && len(res.Violations) == 0 {
-			fail(2, "VACUOUS: no path completed")
+			rc.fail(hr, 2, "VACUOUS: no path completed")
 		}
-		// violations: replay natively, match known findings
 		seen := map[string]bool{}
 		for i := range res.Violations {
 			v := &res.Violations[i]
@@ -336,41 +395,53 @@ func cmdRun(args []string) int {
 				continue
 			}
 			seen[key] = true
-			rp := filepath.Join(verifDir, "evidence", "replay", fmt.Sprintf("%s-%s-%d.json", spec.Property, hs.Func, len(replayFiles)))
-			writeReplay(rp, &spec, v)
-			replayFiles = append(replayFiles, rp)
+			rp := filepath.Join(verifDir, "evidence", "replay", fmt.Sprintf("%s-%s-%d.json", spec.Property, hs.Func, len(rc.replayFiles)))
+			writeReplay(rp, &spec, specDir, v)
+			rc.replayFiles = append(rc.replayFiles, rp)
 			confirmed, out := true, ""
-			if !*noReplay && !hs.NoReplay {
-				nativeRuns++
+			if !rc.noReplay && !hs.NoReplay {
+				rc.nativeRuns++
 				confirmed, out = nativeReplay(&spec, specDir, rp, v)
 			}
 			desc := v.Msg + " @ " + shortWhere(v.Where)
 			if kf := matchKnown(known, spec.Property, hs.Func, desc); kf != nil && confirmed {
 				line := fmt.Sprintf("KNOWN-FINDING: property=%s %s", spec.Property, kf.What)
-				if !contains(knownLines, line) {
-					knownLines = append(knownLines, line)
+				if !contains(rc.knownLines, line) {
+					rc.knownLines = append(rc.knownLines, line)
 					fmt.Println(line)
 				}
 				continue
 			}
 			if !confirmed {
-				fail(2, "ENGINE-DISAGREEMENT: counterexample did not reproduce natively: "+desc+"\n"+out)
+				rc.fail(hr, 2, "ENGINE-DISAGREEMENT: counterexample did not reproduce natively: "+desc+"\n"+out)
 				continue
 			}
-			nViol++
-			exit = 1
+			rc.nViol++
+			rc.exit = 1
 			fmt.Printf("VIOLATION property=%s replay=%s\n", spec.Property, rp)
 			fmt.Printf("  harness=%s %s\n", hs.Func, desc)
 		}
 	}
-	// evidence
+	return 0
+}
+
+func appendUniq(l []string, xs ...string) []string {
+	for _, x := range xs {
+		if !contains(l, x) {
+			l = append(l, x)
+		}
+	}
+	return l
+}
+
+func (rc *runCtx) writeEvidence(evPath string, seed int, t0 time.Time) {
 	ev := map[string]interface{}{}
-	ev["property_id"] = spec.Property
-	ev["tier"] = *tier
+	ev["property_id"] = rc.property
+	ev["tier"] = rc.tier
 	ev["seed"] = seed
 	ev["level"] = "model_checking"
 	ev["wall_s"] = time.Since(t0).Seconds()
-	ev["violations"] = nViol
+	ev["violations"] = rc.nViol
 	cov := map[string]interface{}{}
 	var states, trans, obl int64
 	var samples []interface{}
@@ -378,7 +449,7 @@ func cmdRun(args []string) int {
 	var hsum []interface{}
 	var solverS float64
 	queries := 0
-	for _, r := range runs {
+	for _, r := range rc.runs {
 		states += int64(r.res.Paths)
 		trans += r.res.Decisions
 		obl += r.res.Obligations
@@ -396,11 +467,11 @@ func cmdRun(args []string) int {
 			ins = append(ins[:24], fmt.Sprintf("... (%d inputs)", len(ins)))
 		}
 		hsum = append(hsum, map[string]interface{}{
-			"harness": r.spec.Func, "expect": orDefault(r.spec.Expect, "pass"), "ok": r.ok, "problem": r.why,
+			"harness": r.spec.Func, "package": r.pkg, "expect": orDefault(r.spec.Expect, "pass"), "ok": r.ok, "problem": r.why,
 			"paths": r.res.Paths, "path_ends": r.res.PathEnds, "decisions": r.res.Decisions, "obligations_discharged_unsat": r.res.Obligations - int64(len(r.res.Violations)),
 			"violations": len(r.res.Violations), "covers": r.res.Covers, "events": r.res.Events, "instructions": r.res.Steps,
 			"solver_queries": r.res.Queries, "solver_s": r.res.SolverTime.Seconds(), "wall_s": r.res.Wall.Seconds(),
-			"symbolic_inputs": ins, "bounds": boundsOf(r.spec, *tier), "note": r.spec.Note,
+			"symbolic_inputs": ins, "bounds": boundsOf(r.spec, rc.tier), "note": r.spec.Note,
 		})
 		for _, s := range r.res.SamplePaths {
 			if len(samples) < 12 {
@@ -419,26 +490,25 @@ func cmdRun(args []string) int {
 	}
 	cov["states"] = states
 	cov["transitions"] = trans
-	cov["traces_validated_against_impl"] = nativeRuns
+	cov["traces_validated_against_impl"] = rc.nativeRuns
 	cov["samples"] = samples
 	cov["obligations"] = obl
 	cov["harnesses"] = hsum
 	cov["functions_encoded"] = topFuncs(funcs, 60)
 	cov["functions_encoded_count"] = len(funcs)
-	cov["solver"] = map[string]interface{}{"kind": eng.solverKind, "queries": queries, "solver_s": solverS, "query_timeout_ms": eng.queryTimeoutMs}
-	cov["load_s"] = loadT.Seconds()
+	cov["solver"] = map[string]interface{}{"kind": rc.solver, "queries": queries, "solver_s": solverS, "query_timeout_ms": rc.timeoutMs}
+	cov["load_s"] = rc.loadS
 	cov["explanation"] = "states = symbolic paths explored to completion or termination; transitions = solver-decided symbolic branch decisions; every obligation is an SMT query PC && !assertion answered unsat"
-	cov["outside_claim"] = spec.Outside
-	cov["known_findings_reported"] = knownLines
-	cov["exhaustive"] = exit == 0
+	cov["outside_claim"] = rc.outside
+	cov["known_findings_reported"] = rc.knownLines
+	cov["exhaustive"] = rc.exit == 0
 	ev["coverage"] = cov
-	ev["assumptions"] = spec.Assumes
+	ev["assumptions"] = rc.assumes
 	eb, _ := json.MarshalIndent(ev, "", " ")
-	os.MkdirAll(filepath.Dir(*evPath), 0755)
-	os.WriteFile(*evPath, eb, 0644)
+	os.MkdirAll(filepath.Dir(evPath), 0755)
+	os.WriteFile(evPath, eb, 0644)
 	fmt.Printf("property=%s tier=%s harnesses=%d paths=%d decisions=%d obligations=%d violations=%d known=%d wall=%.1fs exit=%d\n",
-		spec.Property, *tier, len(runs), states, trans, obl, nViol, len(knownLines), time.Since(t0).Seconds(), exit)
-	return exit
+		rc.property, rc.tier, len(rc.runs), states, trans, obl, rc.nViol, len(rc.knownLines), time.Since(t0).Seconds(), rc.exit)
 }
 
 func flagSet(fs *flag.FlagSet, name string) bool {
@@ -566,11 +636,11 @@ func matchKnown(known []KnownFinding, prop, harness, desc string) *KnownFinding 
 	return nil
 }
 
-func writeReplay(path string, spec *Spec, v *Violation) {
+func writeReplay(path string, spec *Spec, specDir string, v *Violation) {
 	os.MkdirAll(filepath.Dir(path), 0755)
 	m := map[string]interface{}{
 		"property": spec.Property, "harness": v.Harness, "kind": v.Kind, "msg": v.Msg, "where": v.Where,
-		"inputs": v.Inputs, "params": v.Params, "trace": v.Trace, "package": spec.Package, "dir": spec.Dir, "files": spec.Files,
+		"inputs": v.Inputs, "params": v.Params, "trace": v.Trace, "package": spec.Package, "dir": spec.Dir, "files": spec.Files, "spec_dir": specDir,
 		"uses_uninterpreted_functions": v.UsesUF,
 	}
 	b, _ := json.MarshalIndent(m, "", " ")
@@ -694,6 +764,7 @@ func cmdReplay(args []string) int {
 		Dir      string            `json:"dir"`
 		Files    []string          `json:"files"`
 		Inputs   map[string]string `json:"inputs"`
+		SpecDir  string            `json:"spec_dir"`
 	}
 	if err := json.Unmarshal(b, &m); err != nil {
 		fmt.Fprintln(os.Stderr, err)
@@ -701,6 +772,9 @@ func cmdReplay(args []string) int {
 	}
 	spec := &Spec{Property: m.Property, Dir: m.Dir, Files: m.Files}
 	specDir := filepath.Join(verifDir, "harness", m.Property)
+	if m.SpecDir != "" {
+		specDir = m.SpecDir
+	}
 	abs, _ := filepath.Abs(args[0])
 	ok, out := nativeReplay(spec, specDir, abs, &Violation{Harness: m.Harness, Kind: m.Kind, Msg: m.Msg})
 	fmt.Println(out)
